@@ -84,8 +84,8 @@ func vdrCase(c *Ctx, focus string) {
 	gcfg.Volatile = c.Plan.Draw(4) > 0
 	gcfg.Retain = c.Plan.Draw(2) == 0
 	prog := Generate(c.Plan, gcfg)
-	if c.Plan.Draw(4) == 0 {
-		// a quarter of the cases come from the producer / retain / consumer family
+	if c.Plan.Draw(3) == 0 || os.Getenv("VERIF_VDR_TEMPLATE") != "" {
+		// a third of the cases come from the producer / retain / consumer family
 		prog = templateVdrProg(c.Plan)
 		c.Res.Probes["template-program"]++
 	}
@@ -96,6 +96,25 @@ func vdrCase(c *Ctx, focus string) {
 	swarmSched(c.Plan, cfg)
 	// the detached cleanup goroutines are "aux" tasks: vary their priority strongly
 	cfg.WAux = []int{1, 1, 30, 100}[c.Plan.Draw(4)]
+	splittingConsumer := false
+	for _, st := range prog.Stages {
+		if strings.HasPrefix(st.Name, "CONSUME") && st.Split {
+			splittingConsumer = true
+		}
+	}
+	if splittingConsumer && c.Plan.Draw(2) == 0 {
+		// a consumer that splits sits at "split_complete" while mrp creates its
+		// chunks and at "chunks_complete" until its join starts: many chunks and a
+		// slow mrp (journal entries of several jobs arrive in one refresh) widen
+		// the windows in which the producer's cleanup can see it there
+		cfg.FCfg.MaxChunks = 3 + c.Plan.Draw(6)
+		cfg.WMrp, cfg.WJob = 1, 30
+	}
+	if prog.Stage("CONSUME0") != nil && c.Plan.Draw(3) == 0 {
+		// one consumer's jobs are slow: it sits at its phase boundaries while its
+		// siblings finish and the producer is visited by the cleanup again
+		cfg.SlowLabel, cfg.SlowDiv = fmt.Sprintf("CONSUME%d", c.Plan.Draw(3)), 64
+	}
 	if c.Plan.Draw(5) == 0 {
 		// --overrides: volatility forced on or off for single stages or whole
 		// sub-pipelines, resources replaced per phase
@@ -559,11 +578,13 @@ func templateVdrProg(plan *Tape) *Prog {
 	case 1:
 		prod.Volatile = "false"
 	}
-	switch plan.Draw(3) {
+	switch plan.Draw(5) {
 	case 0:
 		prod.Retain = []string{"data"}
 	case 1:
 		prod.Retain = []string{"data", "more"}
+	case 2:
+		prod.Retain = []string{"more"}
 	}
 	// files inside structs, reached by projection through the struct, through a
 	// typed map of structs and through an array of structs
@@ -594,12 +615,19 @@ func templateVdrProg(plan *Tape) *Prog {
 		pc.Binds = []Bind{{"x", &Expr{Kind: ERef, Self: true, Path: []string{"n"}}, false}}
 	}
 	pl.Calls = append(pl.Calls, pc)
-	ncons := plan.Draw(3)
+	ncons := plan.Draw(4)
 	for i := 0; i < ncons; i++ {
 		name := fmt.Sprintf("CONSUME%d", i)
 		cs := &StageDef{Name: name, SrcKind: "comp", Ins: []Field{{"f", dataT}, {"k", intT}}, Outs: []Field{{"done", intT}}}
 		if plan.Draw(3) == 0 {
 			cs.Outs = append(cs.Outs, Field{"own", txt})
+		}
+		if plan.Draw(2) == 0 {
+			// a splitting consumer: its chunks and its join read the files long
+			// after its split phase has completed
+			cs.Split = true
+			cs.ChunkIns = []Field{{"c0", intT}}
+			cs.ChunkOuts = []Field{{"part", intT}}
 		}
 		p.Stages = append(p.Stages, cs)
 		c := &CallDef{Callee: name, Id: name, Binds: []Bind{{"f", ref("PRODUCE", "data"), false}, {"k", ref("LIST", "items"), false}}}
